@@ -246,6 +246,32 @@ def main():
     sub = cases if chk.thorough else cases[::3]
     progcheck.run_cases(chk, [progcheck.Case(c.prog, c.pop) for c in sub], stats=stats,
                         oracle_sig='addressing-trace-differs')
+    # ---- "each transmits the whole matrix exactly once": sequences of matrix commands, the same
+    # one repeated, with plain commands to the same light in between — one message per command,
+    # whether or not the frame equals an earlier one
+    seq_pop = [{'label': 'M', 'kind': 'matrix', 'height': 2, 'width': 3}, {'label': 'P', 'kind': 'plain'}]
+    forms = {'a': 'set "M" row 0 column 0 1', 'b': 'set "M" begin stage row 1 stage column 2 end',
+             'c': 'hue 7 set "M" row 1 hue 100', 'p': 'hue 9 set "M" hue 100', 'o': 'on "M"', 'x': 'set all'}
+    n_seq = 0
+    for _ in range(300 if chk.thorough else 40):
+        seq = [rng.choice('aabbcpox') for _ in range(rng.randint(2, 6))]
+        if rng.random() < 0.5:
+            k = rng.randrange(len(seq))
+            seq.insert(k, seq[k])           # the same command twice in a row
+        text = 'units raw hue 100 saturation 200 brightness 300 kelvin 3500\n' + '\n'.join(forms[c] for c in seq) + '\n'
+        res = runimpl.run_script(text, seq_pop)
+        chk.count()
+        n_seq += 1
+        want = sum(1 for c in seq if c in 'abc')
+        got = sum(1 for e in res.events if e[0] == 'T' and e[1] == 'M')
+        if not res.compiled or res.fault is not None or got != want:
+            chk.violation('matrix-not-transmitted-once-per-command',
+                          '{} matrix commands in a row ({}) transmitted {} matrix message(s){}'.format(
+                              want, ' '.join(seq), got, '' if res.fault is None else '; ' + res.fault),
+                          {'script': text, 'population': seq_pop})
+        else:
+            chk.nontrivial_case(('seq', tuple(seq)))
+    stats['command_sequences'] = n_seq
     stats['sizes'] = sorted(stats['sizes'])
     stats['zone_lengths'] = sorted(stats['zone_lengths'])
     chk.coverage['distribution'] = stats
